@@ -16,7 +16,8 @@ MANIFEST = dict(
          "F: regenerated tables of pipe.go (24 arities: erase observers = plain, observer i follows operator i+1, = the model's `instrument`), license.go, "
          "operator.go (every wrapper forwards once unchanged, increments first, returns its upstream Unsubscribe) decided by the kernel. "
          "K: kind=prom, real roprometheus.PipeN / stand-alone operators with the licence hook on and off, random chains of catalogue operators, all 24 arities, "
-         "raw scripts and endings, sync/hot, cuts, repeated and concurrent subscriptions; delivered traces, source release and gathered metrics EQUAL to the model.",
+         "raw scripts and endings, sync/hot, cuts, repeated and concurrent subscriptions; delivered traces, source release and gathered metrics EQUAL to the model."
+         ' scrape0=1: the collector is registered and scraped before the licence is installed; once it is active the exported counters are those of a pipeline built under the licence.',
     technique="Lean 4 proof (simulation between gate-per-stage chains, local invariants over accepted notifications) + regenerated fact tables decided by the kernel "
               "+ differential correspondence of traces and gathered Prometheus metrics",
     ref='5/C19')
